@@ -711,15 +711,15 @@ func (g *sgen) attrSimple() Simple {
 		if g.kdAttrBlank {
 			if r.Intn(3) != 0 {
 				s.Op = pick(r, []string{"^=", "$=", "*="})
-				s.V = pick(r, []string{" ", " ", "  ", " ", "\u00a0", "\u00a0", "\u3000", "\u3000 "})
+				s.V = pick(r, []string{" ", " ", "  ", " ", "\t", " \n"})
 			}
 			break
 		}
-		// open defect (attr-blank-value-substring, attr-blank-value-unicode-space): the three substring
-		// operators refuse every attribute value that strings.TrimSpace finds blank; only an operand
-		// that is itself blank for TrimSpace (CSS white space and/or Go-only white space) can occur in
-		// such a value, so exactly those operands stay out of the asserted domain
-		if (s.Op == "^=" || s.Op == "$=" || s.Op == "*=") && s.V != "" && strings.TrimSpace(s.V) == "" {
+		// open defect (attr-blank-value-substring; attr-blank-value-unicode-space is fixed, b812b56): the
+		// three substring operators refuse every attribute value made of CSS white space only; only an
+		// operand that is itself CSS white space can occur in such a value, so exactly those operands
+		// stay out of the asserted domain
+		if (s.Op == "^=" || s.Op == "$=" || s.Op == "*=") && s.V != "" && strings.Trim(s.V, " \t\n\f\r") == "" {
 			continue
 		}
 		break
